@@ -6,10 +6,11 @@
   retrievable intact — no torn or foreign bytes are ever returned for a sequence number.  SQL: a failure of either
   statement of save-and-increment leaves neither the message nor the increment behind.
 
-  The statement is FALSE of the code (DESIGN §9 D12).  This file holds: the full statement as `C17_full` (a `def`) and its
-  refutation `C17_full_false` (torn counter, on a 2-op history); `C17_partial`: the whole conclusion for every history, every
-  crash point between primitives and every power-loss point; witnesses of the failing windows on concrete states (each also
-  replayed on the real store by the `crash` family); `C17_sql_atomic`.  Clause checklist at the end.
+  The statement is FALSE of the code (DESIGN §9 D12c).  This file holds: the full statement as `C17_full` (a `def`) and its
+  refutation `C17_full_false` (torn 19-byte counter, on a 2-op history); `C17_partial`: the whole conclusion for every history,
+  every operation and every crash point / cut / mode EXCEPT a process crash inside a counter rewrite; `C17_synced_between_ops`;
+  what a raw crash image looked like before the three `fix:` commits (witnesses on concrete states); `C17_sql_atomic`.
+  Clause checklist at the end.
 -/
 import Qfx.Model.Store
 import Qfx.Spec.Store
@@ -47,25 +48,30 @@ def C17_full : Prop :=
   ∀ (ops : List Op) (o : Op) (i cut : Nat) (mode : Mode), Asc none (ops ++ [o]) → FitsRun {} (ops ++ [o]) →
     C17_conclusion (({} : AStore).run ops).1 (((({} : AStore).run ops).1).step o).1 (C17_recovered ops o i cut mode)
 
-/-- the crash point lies inside the write of the index line of a save (primitive 1 of `SaveMessage`: body, index line, syncs) -/
-def C17_insideIndexLineWrite (o : Op) (i : Nat) : Prop := isSave o = true ∧ i = 1
+/-- the primitives of operation `o` after history `ops` (as reported by the hook of the real store, compared on every run) -/
+def C17_prims (ops : List Op) (o : Op) : List Prim :=
+  let w := ((FileW.open true {} 0).run ops).1
+  (fileOpPrims w.st w.fs w.clock o).2.1
 
-/-- **C17_partial** — for EVERY history and every operation the recovered view satisfies the whole conclusion at
-    * every crash point BETWEEN primitives of a process crash (`cut = 0`),
-    * every cut INSIDE the write of an index line (since the `fix:` that drops an incomplete trailing index line on open),
-    * every power-loss point (any cut; syncing on).
-    What is left out is exactly the recorded window: a process crash INSIDE the in-place rewrite of a 19-byte counter file
-    (`C17_full_false`) — and, trivially harmless but not covered, cuts inside the body write and the session-file write. -/
+/-- the one recorded window: the process dies INSIDE (`cut ≠ 0`) the in-place rewrite of a counter file -/
+def C17_insideCounterWrite (ops : List Op) (o : Op) (i cut : Nat) : Prop :=
+  ¬ (cut = 0 ∨ ∃ f off data, (C17_prims ops o)[i]? = some (.write f off data) ∧ f ≠ .sender ∧ f ≠ .target)
+
+/-- **C17_partial** — for EVERY history, every operation, every crash point, every cut and both modes, except a process crash
+    inside the in-place rewrite of a 19-byte counter file (the remaining recorded window, `C17_full_false`), the recovered view
+    satisfies the whole conclusion: between primitives, inside the body write, inside the index-line write (since the `fix:` that
+    drops an incomplete trailing index line on open), inside the session-file write, and at every power-loss point (syncing on). -/
 theorem C17_partial (ops : List Op) (o : Op) (i cut : Nat) (mode : Mode)
     (ha : Asc none (ops ++ [o])) (hf : FitsRun {} (ops ++ [o]))
-    (hpt : mode = .process → cut = 0 ∨ C17_insideIndexLineWrite o i) :
+    (hpt : mode = .process → ¬ C17_insideCounterWrite ops o i cut) :
     C17_conclusion (({} : AStore).run ops).1 (((({} : AStore).run ops).1).step o).1 (C17_recovered ops o i cut mode) := by
+  have hpt' : mode = .process → NotInCounterWrite (C17_prims ops o) i cut := fun hm => Classical.not_not.1 (hpt hm)
   obtain ⟨ha1, ha2⟩ := asc_append ops o none ha
   obtain ⟨hf1, hf2⟩ := fitsRun_append ops o {} hf
   obtain ⟨ents, B, hR⟩ := fileR_run_state ops {} _ none [] [] (fileR_init true) ha1 hf1
   have hsync : ((FileW.open true {} 0).run ops).1.st.sync = true := by
     rw [run_sync]; simp [FileW.open, fileOpenPrims, refreshOp]
-  exact crash_good _ _ _ ents B o hR hsync ha2 hf2 i cut mode hpt
+  exact crash_good _ _ _ ents B o hR hsync ha2 hf2 i cut mode hpt'
 
 /-- the assumption behind the power-loss images of `C17_recovered` ("everything before `o` was synced"): with syncing on, when an
     operation returns, the durable contents of every file equal the visible contents, and those are the files the next
@@ -177,14 +183,15 @@ private theorem savePrims_w : saveMessagePrims C17w_st C17w_fs1 2 C17w_msgB =
     [.write .body 5 C17w_msgB, .write .header 6 [50,44,53,44,49,50,10], .sync .body, .sync .header] := by
   simp [saveMessagePrims, C17w_st, C17w_fs1, C17w_msgB, len, hl_2_5_12, syncBH]
 
-/-- torn index line, cut inside the offset: retrieval over the whole range fails although save 1 had completed -/
+/-- why `dropIncompleteIndexLine` is needed — the raw image with a torn index line, cut inside the offset: reading the header as it
+    is fails although save 1 had completed (a fresh store now truncates the header first: `C17_partial`) -/
 theorem C17_witness_torn_header_fails :
     let img := crashImage ⟨C17w_fs1, C17w_fs1⟩ (saveMessagePrims C17w_st C17w_fs1 2 C17w_msgB) 1 3 .process
     fileIterate (img.header.getD []) (img.body.getD []) 0 C17w_bigE 0 = ([[65,65,65,65,65]], .err) := by
   simp only [savePrims_w]
   decide
 
-/-- torn index line, cut inside the size: one byte of a 12-byte message is returned for number 2 -/
+/-- … cut inside the size: read as it is, one byte of a 12-byte message is returned for number 2 -/
 theorem C17_witness_torn_header_bytes :
     let img := crashImage ⟨C17w_fs1, C17w_fs1⟩ (saveMessagePrims C17w_st C17w_fs1 2 C17w_msgB) 1 5 .process
     fileIterate (img.header.getD []) (img.body.getD []) 2 2 0 = ([[66]], .ok) := by
@@ -258,13 +265,13 @@ Clause checklist (properties.jsonl C17 → here)
 * "reopening the store succeeds": the model's open cannot fail (no I/O errors modelled); monitor clause `reopen_fails` on the real store.
 * "every message whose save had completed is returned intact", "each recovered counter equals its value before or after",
   "used ⇒ retrievable", "no torn or foreign bytes": `C17_partial` — the whole conclusion (`C17_conclusion`) for EVERY history, every
-  operation, every crash point between primitives (process crash) and every power-loss point (syncing on; its premise is
-  `C17_synced_between_ops`).  The recovered view is what a fresh store reports (`C17_view`, computed through `recoveredView_eq`).
-* the full statement `C17_full` (also cuts inside a write) is false: `C17_full_false` (torn 19-byte counter on the history
-  `setS 9; incS`).  Further windows on concrete states: `C17_witness_torn_header_fails`, `C17_witness_torn_header_bytes` (index line),
-  `C17_witness_header_before_body_orig` (the original write order, fixed: `C17_fixed_order_same_point`).
-* the fixes: body before index line (`saveMessagePrims` vs `saveMessagePrimsOrig`), header removed before body in Reset
-  (`removePrims` vs `removePrimsOrig`); `C17_partial` is about the fixed order and would not hold for the original ones.
+  operation, every crash point and cut of a process crash except inside a counter rewrite, and every power-loss point (syncing on;
+  its premise is `C17_synced_between_ops`).  The recovered view is what a fresh store reports (`C17_view`, through `recoveredView_eq`).
+* the full statement `C17_full` is false: `C17_full_false` (torn 19-byte counter on the history `setS 9; incS`; known finding).
+* the three fixes the model follows: body before index line (`saveMessagePrims` vs `saveMessagePrimsOrig`,
+  `C17_witness_header_before_body_orig`, `C17_fixed_order_same_point`), header removed before body in Reset (`removePrims` vs
+  `removePrimsOrig`), incomplete trailing index line dropped on open (`truncPrims`; raw images: `C17_witness_torn_header_fails`,
+  `C17_witness_torn_header_bytes`).  `C17_partial` is about the fixed code and would not hold for the original.
 * building blocks kept: C17_power_cut_irrelevant, C17_partial_counter_boundary, C17_partial_save_boundary, C17_partial_save_power.
 * SQL: C17_sql_atomic.
 -/
